@@ -1994,6 +1994,10 @@ def dask_groupby_agg(
             # find number of groups in each chunk, this is needed for output chunks
             # along the reduced axis
             # TODO: this logic is very specialized for the resampling case
+            if is_duck_dask_array(by_input):
+                raise ValueError(
+                    "reindex.blockwise must be True when grouping by dask arrays with method='blockwise'."
+                )
             slices = slices_from_chunks(tuple(array.chunks[ax] for ax in axis))
             # must match the order of groups returned by each block task: sorted, or by first appearance
             groups_in_block = tuple(
